@@ -121,6 +121,10 @@ def perturbations(rng, am):
                 m = copy.deepcopy(am)
                 m["children"][i]["attrs"]["label"] = "L"
                 yield f"child-attr-added:label@{i}", m
+                # a label spelled exactly like the name is still a label: present in one message, absent in the other
+                m = copy.deepcopy(am)
+                m["children"][i]["attrs"]["label"] = c["attrs"]["name"]
+                yield f"child-attr-added:label-equal-to-name@{i}", m
             m = copy.deepcopy(am)
             del m["children"][i]
             yield f"child-dropped@{i}", m
